@@ -19,7 +19,8 @@ let qstr q = implode (qd_str q)
 let fr = function FRVal q -> qstr q | FRGarbage -> "garbage" | FRCrash -> "CRASH"
 let pr name = match term_to_smt2 name with Printed s -> implode s | PrintFails -> "printfails"
 let mk = function
-  | MInt (name, v) -> "Int " ^ fr v ^ " " ^ pr name
+  | MInt (Some name, v) -> "Int " ^ fr v ^ " " ^ pr name
+  | MInt (None, v) -> "Int " ^ fr v ^ " garbage"
   | MReal (name, v) -> "Real " ^ fr v ^ " " ^ pr name
   | MApiExc -> "api" | MStrConvExc -> "strconv" | MCrash -> "CRASH" | MOverrun -> "OVERRUN" | MNotNumeric -> "nonnum"
 let b x = if x then "1" else "0"
